@@ -8,10 +8,13 @@
 //   obj quart <n> {<a> <e> <d> <m>}*n        at <x_i>*n      sum a_i t^4 + e_i t^2 + d_i t,  t = x_i - m_i
 //   opt <kind> <k|i|a> <tol|-> <maxeval> <extra>
 //        kind : gss <lo> <hi> | brent <lo> <hi> <out|in> | nback <slope> <test> | newton1 | simple
-//               | snewton | powell | simplex | cg | bfgs | meta <full|step> [<n>]   (n: number of progressive steps, default 2)
+//               | snewton | powell | simplex | cg | bfgs | meta <full|step> [<n> [<cfg>]]   (n: number of progressive steps,
+//               default 2; cfg: which optimisers the description holds, see below, default sb)
 //   init <k> {<index> <value> <con> [P <precision>]}*k       con : N | I <lo|*> <hi|*> <inclLo> <inclHi>   (precision: default 0)
 //   step | optimize
 //   setmax <n>                                setMaximumNumberOfEvaluations(n) on the optimiser that exists
+//   setpol <k|i|a>                            setConstraintPolicy(...) on the optimiser that exists (takes effect at the next init:
+//                                             the same object is used again with another policy / other constraints)
 //   clone                                     the optimiser is replaced by its clone() (the step listener is attached again:
 //                                             copies do not keep listeners)
 //   hint <cond> <inside> <convex> <full> <minimiser_i>*   what the generator knows about the objective (ignored here)
@@ -227,14 +230,27 @@ struct Machine {
       else if (kind == "cg") opt = std::make_shared<ConjugateGradientMultiDimensions>(f1);
       else if (kind == "bfgs") opt = std::make_shared<BfgsMultiDimensions>(f1);
       else if (kind == "meta") {
-        // first half of the parameters: coordinate-wise Brent; second half: BFGS (or everything Brent when n = 1)
+        // configuration (third word after the kind, default `sb`):
+        //   sb  first half of the parameters: coordinate-wise Brent; second half: BFGS (everything Brent when n = 1)   [modelled]
+        //   sp  first half: coordinate-wise Brent; second half: Powell (the last member is Powell)
+        //   bp  first half: BFGS; second half: Powell
+        //   p / b / s / c   ONE member for all the parameters: Powell / BFGS / coordinate-wise Brent / conjugate gradient
         std::string type = t.at(i) == "full" ? MetaOptimizerInfos::IT_TYPE_FULL : MetaOptimizerInfos::IT_TYPE_STEP;
+        std::string cfg = t.size() > i + 2 ? t.at(i + 2) : "sb";
         std::unique_ptr<MetaOptimizerInfos> desc(new MetaOptimizerInfos());
         size_t n = fn->n_, h = (n + 1) / 2;
-        std::vector<std::string> g1, g2;
-        for (size_t j = 0; j < n; ++j) (j < h ? g1 : g2).push_back(pname(j));
-        desc->addOptimizer("simple", std::make_shared<SimpleMultiDimensions>(f0), g1, 0, type);
-        if (!g2.empty()) desc->addOptimizer("bfgs", std::make_shared<BfgsMultiDimensions>(f1), g2, 1, type);
+        std::vector<std::string> g1, g2, all;
+        for (size_t j = 0; j < n; ++j) { (j < h ? g1 : g2).push_back(pname(j)); all.push_back(pname(j)); }
+        auto member = [&](char c, const std::vector<std::string>& g) {
+          if (g.empty()) return;
+          if (c == 's') desc->addOptimizer("simple", std::make_shared<SimpleMultiDimensions>(f0), g, 0, type);
+          else if (c == 'b') desc->addOptimizer("bfgs", std::make_shared<BfgsMultiDimensions>(f1), g, 1, type);
+          else if (c == 'p') desc->addOptimizer("powell", std::make_shared<PowellMultiDimensions>(f0), g, 0, type);
+          else if (c == 'c') desc->addOptimizer("cg", std::make_shared<ConjugateGradientMultiDimensions>(f1), g, 1, type);
+        };
+        if (cfg.size() == 2) { member(cfg[0], g1); member(cfg[1], g2); }
+        else if (cfg.size() == 1) member(cfg[0], all);
+        else return "bad-op";
         unsigned int nsteps = t.size() > i + 1 ? (unsigned int)toU(t.at(i + 1)) : 2;
         opt = std::make_shared<MetaOptimizer>(f0, std::move(desc), nsteps);
       }
@@ -274,6 +290,11 @@ struct Machine {
       return "ok";
     }
     if (o == "setmax") { opt->setMaximumNumberOfEvaluations((unsigned int)toU(t.at(i++))); return "ok"; }
+    if (o == "setpol") {
+      std::string pol = t.at(i++);
+      opt->setConstraintPolicy(pol == "a" ? AutoParameter::CONSTRAINTS_AUTO : pol == "i" ? AutoParameter::CONSTRAINTS_IGNORE : AutoParameter::CONSTRAINTS_KEEP);
+      return "ok";
+    }
     if (o == "init") {
       size_t k = toU(t.at(i++));
       std::string a = guarded([&]() -> std::string {
